@@ -189,7 +189,10 @@ class NodeAssign:
                 f"Variable {self.identifier} is not defined",
                 self.pos,
             )
-        environment.set(self.identifier, self.expression.evaluate(environment))
+        value = self.expression.evaluate(environment)
+        if value.isBreak() or value.isContinue() or value.isReturn():
+            return value    # an exit, not a value: nothing is assigned
+        environment.set(self.identifier, value)
         return environment.get(self.identifier, self.pos)
 
     def __repr__(self):
@@ -444,6 +447,8 @@ class NodeDef:
 
     def evaluate(self, environment):
         value = self.expression.evaluate(environment)
+        if value.isBreak() or value.isContinue() or value.isReturn():
+            return value    # an exit, not a value: nothing is defined
         value.info = self.info
         environment.put(self.identifier, value)
         import ckl.functions
